@@ -21,10 +21,14 @@ struct ForwardWorld {
 
 struct C20Monitor : Monitor {
 	World *w; ForwardWorld *fw;
-	struct Exp { uint16_t id; std::string name; uint16_t type; std::string asker; Addr asker_addr; bool done = false; };
+	struct Exp { uint16_t id; std::string name; uint16_t type; std::string asker; Addr asker_addr; bool done = false; std::vector<Bytes> labels; bool odd = false; };
+	// a label with a '.' or a 0 octet inside is legal DNS (RFC 2181 section 11; DNS-SD instance names) but cannot be told from two labels /
+	// the end of the name once the name is held as a dotted C string
+	static bool odd_labels(const std::vector<Bytes> &ls) { for (auto &l : ls) for (uint8_t c : l) if (c == '.' || c == 0) return true; return false; }
+	static std::string safe_dotted(const std::vector<Bytes> &ls) { std::string o; for (size_t i = 0; i < ls.size(); i++) { if (i) o += '.'; for (uint8_t c : ls[i]) o += (c == '.' || c == 0) ? '?' : (char)c; } return o; }
 	struct Ring { uint16_t id; std::string asker; bool answered = false; bool ambig = false; };
 	std::deque<Ring> ring;                          // the 16 most recently forwarded queries
-	std::vector<Exp> step_expect;
+	std::vector<Exp> step_expect, step_odd_inside;
 	struct Rep { Bytes data; uint16_t id; int relayed = 0; };
 	std::vector<Rep> step_replies;
 	std::set<uint64_t> known_reply_hashes;          // every datagram the local DNS ever emitted
@@ -43,12 +47,26 @@ struct C20Monitor : Monitor {
 			DnsMsg m;
 			std::string e = dns_parse_strict(d.data, m);
 			if (!e.empty() || m.qd.size() != 1) { w->S.violate("C20", "forward.malformed", "forwarded query is not a well-formed single-question message: " + e); return; }
-			for (auto &x : step_expect) if (!x.done && x.id == m.id && x.name == m.qd[0].name.dotted() && x.type == m.qd[0].type) {
+			for (auto &x : step_expect) if (!x.done && x.id == m.id && x.labels == m.qd[0].name.labels && x.type == m.qd[0].type) {
 				x.done = true;
 				ring.push_back({m.id, x.asker, false}); if (ring.size() > 16) ring.pop_front();
 				return;
 			}
-			char b[300]; snprintf(b, sizeof b, "forwarded query id=%u name='%s' type=%u matches no non-tunnel query received in this step", m.id, m.qd[0].name.dotted().substr(0, 120).c_str(), m.qd[0].type);
+			char b[300];
+			for (auto &x : step_expect) if (!x.done && x.odd && x.id == m.id && x.type == m.qd[0].type) {
+				// relayed, but under another name
+				x.done = true;
+				ring.push_back({m.id, x.asker, false}); if (ring.size() > 16) ring.pop_front();
+				snprintf(b, sizeof b, "query id=%u for a name with a '.' or 0 octet inside a label ('%s') was relayed as '%s'", m.id, safe_dotted(x.labels).substr(0, 100).c_str(), safe_dotted(m.qd[0].name.labels).substr(0, 100).c_str());
+				w->S.violate("C20", "forward.oddlabel.altered", b);
+				return;
+			}
+			for (auto &y : step_odd_inside) if (!y.done && y.id == m.id && y.type == m.qd[0].type) {
+				y.done = true; w->probes["c20.oddlabel_inside_relayed"]++;
+				ring.push_back({m.id, y.asker, false}); if (ring.size() > 16) ring.pop_front();
+				return;
+			}
+			snprintf(b, sizeof b, "forwarded query id=%u name='%s' type=%u matches no non-tunnel query received in this step", m.id, m.qd[0].name.dotted().substr(0, 120).c_str(), m.qd[0].type);
 			w->S.violate("C20", "forward.altered_or_unexpected", b);
 			return;
 		}
@@ -99,8 +117,15 @@ struct C20Monitor : Monitor {
 		DnsMsg m;
 		if (!dns_parse_strict(d.data, m).empty() || m.qr || m.qd.size() != 1) return;
 		std::string name = m.qd[0].name.dotted();
-		if (under_tunnel_domain(name, w->srv_domain)) { w->probes["c20.tunnel_names"]++; return; }
-		Exp x; x.id = m.id; x.name = name; x.type = m.qd[0].type; x.asker = d.src.str(); x.asker_addr = d.src;
+		bool odd = odd_labels(m.qd[0].name.labels);
+		if (odd) { name = safe_dotted(m.qd[0].name.labels); w->probes["c20.asked_oddlabel"]++; }      // membership in the tunnel domain is a matter of labels
+		if (under_tunnel_domain(name, w->srv_domain)) {
+			w->probes["c20.tunnel_names"]++;
+			// label by label this is a tunnel name; whether iodined, reading it as a string, relays it instead is not C20's subject
+			if (odd) { Exp y; y.id = m.id; y.type = m.qd[0].type; y.asker = d.src.str(); step_odd_inside.push_back(y); }
+			return;
+		}
+		Exp x; x.id = m.id; x.name = name; x.type = m.qd[0].type; x.asker = d.src.str(); x.asker_addr = d.src; x.labels = m.qd[0].name.labels; x.odd = odd;
 		step_expect.push_back(x);
 		w->probes["c20.asked"]++;
 		if (d.src.fam == AF_INET6) w->probes["c20.asked_v6"]++;
@@ -112,7 +137,7 @@ struct C20Monitor : Monitor {
 		char b[300];
 		for (auto &x : step_expect) if (!x.done) {
 			snprintf(b, sizeof b, "query id=%u '%s' type=%u from %s is outside the tunnel domain but was not relayed to 127.0.0.1:%d", x.id, x.name.substr(0, 100).c_str(), x.type, x.asker.c_str(), fw->bind_port);
-			w->S.violate("C20", x.asker_addr.fam == AF_INET6 ? "forward.missing.v6" : "forward.missing", b);
+			w->S.violate("C20", x.odd ? "forward.oddlabel.missing" : x.asker_addr.fam == AF_INET6 ? "forward.missing.v6" : "forward.missing", b);
 		}
 		for (auto &r : step_replies) {
 			if (r.data.size() < 12) { w->probes["c20.runt_received"]++; continue; }      // not a DNS message: nothing is promised for it
@@ -129,7 +154,7 @@ struct C20Monitor : Monitor {
 			else w->probes["c20.reply_unknown_id"]++;
 		}
 		if (ring.size() >= 16) w->probes["c20.ring_wrapped"]++;
-		step_expect.clear(); step_replies.clear();
+		step_expect.clear(); step_replies.clear(); step_odd_inside.clear();
 	}
 };
 
@@ -215,11 +240,27 @@ J gen_forward(uint64_t seed, const J &ov)
 			std::string d2 = dom; for (auto &c : d2) if (r.chance(0.5)) c = (char)toupper((unsigned char)c);
 			op.set("name", std::string(r.chance(0.5) ? "zz" : "www2") + "q" + std::to_string(i) + "." + d2);
 		} else op.set("name", gen_outside_name(r, dom));
+		if (ov.getb("oddlabels") && r.chance(0.25)) {
+			// wire-format labels given explicitly: one label with a '.' or a 0 octet inside (DNS-SD instance names such as
+			// "Dr.Pepper"._http._tcp.example.org; binary labels) in front of an ordinary outside name, or in front of the parent of the tunnel domain so that
+			// the dotted spelling of the name looks like a tunnel name
+			std::string hex; auto addl = [&](const std::string &l) { char b[4]; snprintf(b, sizeof b, "%02x", (unsigned)l.size()); hex += b; for (unsigned char c : l) { snprintf(b, sizeof b, "%02x", c); hex += b; } };
+			std::string base = gen_outside_name(r, dom);
+			size_t dot = dom.find('.');
+			int k = (int)r.range(0, 3);
+			if (k == 3 && dot != std::string::npos && dot + 1 < dom.size() && dom.substr(dot + 1).find('.') != std::string::npos) { addl("x." + dom.substr(0, dot)); base = dom.substr(dot + 1); }
+			else if (k == 2) addl(std::string("a\0b", 3) + (r.chance(0.5) ? "c" : ""));
+			else if (k == 1) addl("Dr.Pepper");
+			else addl("_svc.x");
+			if (k == 2) hex.replace(4, 2, "00");      // the middle octet of "a?b" is a 0 octet
+			if (base.empty()) base = "org";
+			size_t st = 0; while (st <= base.size()) { size_t e = base.find('.', st); if (e == std::string::npos) e = base.size(); if (e > st) addl(base.substr(st, e - st)); st = e + 1; }
+			op.set("labels_hex", hex);
+		}
 		op.set("edns", r.chance(0.3));
 		ops.push(op);
 	}
 	plan.set("cfg", cfg); plan.set("ops", ops);
-	(void)ov;
 	return plan;
 }
 
@@ -302,7 +343,16 @@ World *build_forward(const J &plan)
 		Sock *s = fw->askers[six ? n + "6" : n];
 		if (!s) return true;
 		Addr dst = six ? ww->S.hosts[ww->srv_host].ip6 : ww->S.hosts[ww->srv_host].ip4; dst.port = 53;
-		ww->S.send_from(s, dst, dns_build_query((uint16_t)op.geti("id"), op.gets("name"), (uint16_t)op.geti("qtype", 1), op.getb("edns")));
+		Bytes qb = dns_build_query((uint16_t)op.geti("id"), op.gets("name"), (uint16_t)op.geti("qtype", 1), op.getb("edns"));
+		if (op.has("labels_hex")) {
+			// question name given label by label
+			std::string hx = op.gets("labels_hex"); Bytes nm; for (size_t i = 0; i + 1 < hx.size(); i += 2) nm.push_back((uint8_t)strtol(hx.substr(i, 2).c_str(), nullptr, 16)); nm.push_back(0);
+			Bytes b2; put16(b2, (uint16_t)op.geti("id")); b2.push_back(1); b2.push_back(0); put16(b2, 1); put16(b2, 0); put16(b2, 0); put16(b2, op.getb("edns") ? 1 : 0);
+			b2.insert(b2.end(), nm.begin(), nm.end()); put16(b2, (uint16_t)op.geti("qtype", 1)); put16(b2, 1);
+			if (op.getb("edns")) { b2.push_back(0); put16(b2, QT_OPT); put16(b2, 4096); put16(b2, 0); put16(b2, 0x8000); put16(b2, 0); }
+			if (nm.size() <= 255) { qb = b2; ww->S.count("op.ask.oddlabel"); }
+		}
+		ww->S.send_from(s, dst, qb);
 		ww->S.count("op.ask");
 		return true;
 	};
